@@ -8,8 +8,19 @@ THEOREMS = [
              "not-completed staged entry of that state"},
     {"name": "C01_justification_is_permanent", "strength": "P",
      "text": "prev / ctxs.in of a started record never change (R18), so its recorded justification is permanent"},
-    {"name": "(tested, not proved) a record is created only for a start task or through a satisfied transition of a completed "
-             "predecessor that is a transition of the definition; exact multiset on success", "strength": "T",
+    {"name": "C01b_history_justified / C01b_reachable_offers_justified", "strength": "P",
+     "text": "invariant of every history of API calls from a fresh conductor (every evaluator, reruns included, calls "
+             "that raise included): every staged entry and every record either has no predecessor and is a start task of "
+             "the graph, or each of its predecessors is a completed record of an inbound task whose transition into it is "
+             "an edge of the graph and is recorded satisfied; hence every offer is so justified. Hypotheses: transition ids "
+             "unique per task (true of composed graphs; witness that it is needed) and, per event, the protocol clause "
+             "call_ok (no further completion report to a record that has decided its transitions while retries are left) -- "
+             "refuted without it by the duplicate-report witness (C01b_justified_refuted_by_duplicate_report)"},
+    {"name": "C01b_decision_recorded_is_criteria / C01b_no_reference_unless_true / C01b_completion_ctx_shape", "strength": "F",
+     "text": "'recorded satisfied' means 'the condition evaluated true on the predecessor's actual status and result': the "
+             "value written is the conjunction of the truthiness of the criteria evaluated in the context made from the "
+             "reported result; nothing is staged unless it is true; no other operation touches the decisions"},
+    {"name": "(tested, not proved) exact multiset on success (nothing duplicated, nothing lost)", "strength": "T",
      "text": "monitor c01 reads transitions and start tasks straight from the definition (independently of the composer)"},
 ]
 TRUSTED_BASE = common.TRUSTED_BASE_COMMON
